@@ -10,6 +10,7 @@ A full traversal visiting exactly the container's elements needs the container's
 import re
 from .. import clangjson as cj
 from .. import ir
+from .. import trange
 from ..report import Report
 
 DRIVER = ('#include "xtl/xiterator_base.hpp"\n#include "xtl/xdynamic_bitset.hpp"\n#include "xtl/xoptional_sequence.hpp"\n'
@@ -921,6 +922,13 @@ def rule_ranges(rep, d):
     def val(t, depth=0):
         if t is None or depth > 5:
             return ("?",)
+        if t[0] == "cond":
+            a_, b_ = val(t[2], depth + 1), val(t[3], depth + 1)
+            if a_ == b_:
+                return a_
+            return ("either", a_, b_)
+        if t[0] == "construct" and len(t) == 2:
+            return ("detached",)           # iterator(): bound to no container
         if t[0] == "construct" or (t[0] == "call" and t[1][0] == "ref" and "iterator" in str(t[1][1])):
             args = [x for x in t[2:]]
             tname = str(t[1]) if t[0] == "construct" else str(t[1][1])
@@ -949,8 +957,16 @@ def rule_ranges(rep, d):
             const = ") const" in ir.qtype(f)
             got = val(ret(f))
             label = "xdynamic_bitset_base::%s()%s" % (nm, " const" if const else "")
+            def has_detached(v_):
+                return isinstance(v_, tuple) and (v_ == ("detached",) or any(has_detached(x_) for x_ in v_[1:]))
             if got == want[nm]:
                 rep.holds("C12.range", label, "designated position", where=d.where(f), detail=str(got))
+            elif has_detached(got):
+                rep.violates("C12.range", label, "designated position", where=d.where(f),
+                             detail="on some path the result is a default-constructed iterator, bound to no container (%s): it compares unequal to the iterators of its "
+                                    "siblings at the same position" % (got,))
+            elif got[0] == "either":
+                rep.inconclusive("C12.range", label, "designated position", where=d.where(f), detail="the position depends on a condition: %s" % (got,))
             elif got[0] == "?" or (got[0] == "rev" and got[1][0] == "?"):
                 rep.inconclusive("C12.range", label, "designated position", where=d.where(f), detail="not a (reverse) iterator at a recognisable position: %s" % (got,))
             else:
@@ -958,6 +974,63 @@ def rule_ranges(rep, d):
                              detail="designates %s, expected %s: the traversal starts or stops one element off" % (got, want[nm]))
     if n < 8:
         rep.broke("C12.range: only %d of the range accessors of xdynamic_bitset_base were found" % n)
+
+
+SIGN_DRIVER = '''#include "xtl/xiterator_base.hpp"
+#include "xtl/xdynamic_bitset.hpp"
+#include <cstdint>
+namespace wxtl
+{
+    inline void use_signs(const int* p, xtl::xdynamic_bitset<std::uint64_t>& bs)
+    {
+        xtl::xstepping_iterator<const int*> a(p, 2), b(p + 4, 2);
+        (void)(a - b); a += 1; a -= 1; ++a; --a; (void)(a == b); (void)(a < b); (void)*a; (void)(a + 1); (void)(a - 1);
+        auto i = bs.begin(); auto j = bs.end();
+        (void)(j - i); i += 1; i -= 1; ++i; --i; (void)(i == j); (void)(i < j); (void)*i; (void)(i + 1); (void)(i - 1);
+        auto ci = bs.cbegin(); auto cj = bs.cend();
+        (void)(cj - ci); ci += 1; ci -= 1; (void)(ci < cj);
+    }
+}
+'''
+
+
+def rule_sign(rep):
+    """distances between iterators are signed: where a member of an iterator divides, takes a remainder of, shifts right or orders such a quantity,
+    no operand may have been converted from a signed to an unsigned type on the way (a negative distance would become a huge one).  Additions and
+    subtractions are left alone: they are the same modulo 2^64."""
+    R = "C12.sign"
+    rep.rule(R, "in the instantiated iterator members no operand of / % >> < <= > >= is an implicit conversion of a signed quantity to an unsigned type "
+                "(a - b for a before b must stay negative)")
+    d = cj.dump(SIGN_DRIVER, "xtl::")
+    rep.cmd(d.cmd)
+    n = 0
+    for f in ir.functions(d):
+        cls = ir.enclosing_class(d, f)
+        if cls is None or cls.get("name") not in ("xstepping_iterator", "xbitset_iterator") or ir.is_template_pattern(d, f) or ir.body(f) is None:
+            continue
+        n += 1
+        bad = None
+        for x in ir.walk_expr(ir.body(f)):
+            if x.get("kind") not in ("BinaryOperator", "CompoundAssignOperator") or x.get("opcode") not in ("/", "%", ">>", "<", "<=", ">", ">=", "/=", "%=", ">>="):
+                continue
+            for side in ir.ekids(x):
+                c = side
+                while c.get("kind") in ("ParenExpr",) and ir.ekids(c):
+                    c = ir.ekids(c)[0]
+                if c.get("kind") == "ImplicitCastExpr" and c.get("castKind") == "IntegralCast" and ir.ekids(c):
+                    src, dst = trange.type_range(ir.qtype(ir.ekids(c)[0])), trange.type_range(ir.qtype(c))
+                    lit = ir.strip(ir.ekids(c)[0]).get("kind") == "IntegerLiteral"
+                    if src is not None and dst is not None and src[0] < 0 and dst[0] == 0 and not lit:
+                        bad = bad or (x, "`%s`: the operand `%s` (%s) is converted to %s before `%s` is applied: a negative value becomes a huge positive one" % (
+                            d.text(x)[:60], d.text(ir.ekids(c)[0])[:30], ir.qtype(ir.ekids(c)[0]), ir.qtype(c), x.get("opcode")))
+        lab = "%s<%s>::%s" % (cls.get("name"), " ".join(ir.template_args(cls))[:30], f.get("name"))
+        if bad:
+            rep.violates(R, lab, "signed quantities stay signed", where=d.where(bad[0]), detail=bad[1])
+        else:
+            rep.holds(R, lab, "signed quantities stay signed", where=d.where(f), nontrivial=any(x.get("kind") in ("BinaryOperator", "CompoundAssignOperator") and
+                                                                                              x.get("opcode") in ("/", "%", ">>", "<", "<=", ">", ">=") for x in ir.walk_expr(ir.body(f))))
+    if n < 12:
+        raise cj.AnalysisBroken("C12.sign: only %d instantiated iterator members found" % n)
 
 
 def run(tier):
@@ -978,5 +1051,6 @@ def run(tier):
     rule_prims(rep, d, classes)
     rule_step(rep, d, classes)
     rule_ranges(rep, d)
+    rule_sign(rep)
     rep.unit("3 base templates; concrete iterators: %s" % ", ".join("%s(%s)" % (c["name"], k) for c, k in classes))
     return rep
